@@ -29,28 +29,38 @@ func runC12(c *Ctx) {
 	r.Floor("C12.self", 20)
 	r.Floor("C12.open", 3)
 
-	// LO4: Send holds nothing of its own across the processing call
-	if send := c.Fn("C12.send", PkgRoot, "Broker", "Send"); send != nil {
-		may := c.MayLocks()
-		calls := callsTo(send, func(n string, cc *ssa.CallCommon) bool { return n == "(*eventlogger.graph).process" })
-		if len(calls) == 0 {
-			r.Und("C12.send", "(*Broker).Send", c.P.Pos(send.Pos()), "no call of (*graph).process found in Send")
-		}
-		for _, ci := range calls {
-			held := may.At(ci)
-			own := LockSet{}
-			for k, m := range held {
-				if _, fromCaller := may.Entry[send][k]; !fromCaller {
-					own[k] = m
-				}
-			}
-			r.CallSites++
-			r.Check(len(own) == 0, "C12.send", "(*Broker).Send->process", c.P.InstrPos(ci),
-				"no lock acquired by Send is held across graph.process", "Send holds "+own.String()+" across graph.process: any node calling back into the Broker can deadlock")
-		}
-	}
+	c.ruleSendHoldsNothing("C12.send")
 	c.pairingRule("C12.pairing", func(fn *ssa.Function) bool {
 		pp := PkgPathOf(fn)
 		return pp == PkgRoot || pp == PkgGated
 	}, false)
+}
+
+// ruleSendHoldsNothing (LO4): Send holds no lock of its own across graph.process.
+func (c *Ctx) ruleSendHoldsNothing(rule string) {
+	r := c.R
+	send := c.Fn(rule, PkgRoot, "Broker", "Send")
+	if send == nil {
+		return
+	}
+	may := c.MayLocks()
+	calls := callsTo(send, func(n string, cc *ssa.CallCommon) bool { return n == "(*eventlogger.graph).process" })
+	if len(calls) == 0 {
+		r.Und(rule, "(*Broker).Send", c.P.Pos(send.Pos()), "no call of (*graph).process found in Send")
+	}
+	for _, ci := range calls {
+		held := may.At(ci)
+		own := LockSet{}
+		for k, m := range c.MustLocks().At(ci) {
+			own[k] = m // certainly held at the call; Send is entered with nothing held
+		}
+		for k, m := range held {
+			if _, fromCaller := may.Entry[send][k]; !fromCaller {
+				own[k] = m
+			}
+		}
+		r.CallSites++
+		r.Check(len(own) == 0, rule, "(*Broker).Send->process", c.P.InstrPos(ci),
+			"no lock acquired by Send is held across graph.process", "Send holds "+own.String()+" across graph.process: any node calling back into the Broker can deadlock, and registration is blocked for the whole Send")
+	}
 }
